@@ -234,6 +234,14 @@ func (r *Run) CheckWindow(w Window) *ssa.BasicBlock {
 	// exactness (R4): the order atoms are comparisons of time.Time instants
 	for _, v := range r.atomSites(fn, wKeySet(kS, kL)) {
 		c, ok := v.(*ssa.Call)
+		if b, isBin := v.(*ssa.BinOp); isBin {
+			// t.Compare(u) <op> 0
+			if cc, isCall := b.X.(*ssa.Call); isCall {
+				c, ok = cc, true
+			} else if cc, isCall := b.Y.(*ssa.Call); isCall {
+				c, ok = cc, true
+			}
+		}
 		name := ""
 		if ok && c.Call.StaticCallee() != nil {
 			name = FuncName(c.Call.StaticCallee())
@@ -242,7 +250,7 @@ func (r *Run) CheckWindow(w Window) *ssa.BasicBlock {
 		if wKeySet(kL)[r.D.Classify(v).Key] {
 			side = "limit"
 		}
-		r.Check(w.Name+":instant-comparison["+side+"."+strings.TrimPrefix(name, "(time.Time).")+"]", name == "(time.Time).Before" || name == "(time.Time).After" || name == "(time.Time).Equal", r.Where(entry.Instrs[len(entry.Instrs)-1]),
+		r.Check(w.Name+":instant-comparison["+side+"."+strings.TrimPrefix(name, "(time.Time).")+"]", name == "(time.Time).Before" || name == "(time.Time).After" || name == "(time.Time).Equal" || name == "(time.Time).Compare", r.Where(entry.Instrs[len(entry.Instrs)-1]),
 			"window comparison "+r.D.D(v)+" is a comparison of whole time.Time instants (sub-second parts count)")
 	}
 	where := r.Where(entry.Instrs[len(entry.Instrs)-1])
